@@ -228,6 +228,18 @@ Example c20_config_history_example :
      Ok [71;79;95;68;69;83;73;71;78;69;82]; Ok [97;98]].
 Proof. vm_compute. reflexivity. Qed.
 
+(* other product words in a style are plain text: "go_designer.zero" renders "user_center.zero",
+   "GoZeroDesigner" renders "UserZeroCenter"; "gozero" / "go_zero" lack "designer" and are rejected *)
+Example c20_config_product_words :
+  configured_format U0 [103;111;95;100;101;115;105;103;110;101;114;46;122;101;114;111] [117;115;101;114;67;101;110;116;101;114]
+    = Ok [117;115;101;114;95;99;101;110;116;101;114;46;122;101;114;111] /\
+  configured_format U0 [71;111;90;101;114;111;68;101;115;105;103;110;101;114] [117;115;101;114;95;99;101;110;116;101;114]
+    = Ok [85;115;101;114;90;101;114;111;67;101;110;116;101;114] /\
+  configured_format U0 [103;111;122;101;114;111] [120] = Err err_naming /\
+  configured_format U0 [103;111;95;122;101;114;111] [120] = Err err_naming /\
+  new_config U0 [103;111;122;101;114;111] = Ok [103;111;122;101;114;111].
+Proof. vm_compute. repeat split; reflexivity. Qed.
+
 (* user_name -> UserName -> user_name *)
 Example c20_roundtrip_example :
   to_camel U0 [117;115;101;114;95;110;97;109;101] = Ok [85;115;101;114;78;97;109;101] /\
